@@ -267,3 +267,46 @@ Fixpoint itrace (apps : list N) (sched : list bool) (fuel : nat) (st : dstate) (
       else let '(st', r, _) := exec apps st o1 in (false, sop_name o1) :: itrace apps (tl sched) f st' (dedupe (k1 r) q) q
     end
   end.
+
+(* any number of handlers of one device: sched names the handler that performs the next operation (when that
+   handler has finished, the first unfinished one runs); the scheduler's per-device slot as above *)
+Fixpoint replace_nth (i : nat) (p : prog) (ps : list prog) : list prog :=
+  match ps, i with
+  | [], _ => []
+  | _ :: t, O => p :: t
+  | h :: t, S j => h :: replace_nth j p t
+  end.
+Definition running (p : prog) : bool := match p with Do _ _ => true | Halt _ => false end.
+Fixpoint first_running (ps : list prog) : option nat :=
+  match ps with
+  | [] => None
+  | p :: t => if running p then Some O else match first_running t with Some j => Some (S j) | None => None end
+  end.
+Definition choose (want : nat) (ps : list prog) : option nat :=
+  match nth_error ps want with
+  | Some p => if running p then Some want else first_running ps
+  | None => first_running ps
+  end.
+Fixpoint others_at_buffer (i : nat) (ps : list prog) : bool :=
+  match ps, i with
+  | [], _ => false
+  | _ :: t, O => existsb at_buffer_read t
+  | h :: t, S j => at_buffer_read h || others_at_buffer j t
+  end.
+Definition final_outs (ps : list prog) : list out := flat_map (fun p => match p with Halt o => o | Do _ _ => [] end) ps.
+Fixpoint interleaveN (apps : list N) (sched : list nat) (fuel : nat) (st : dstate) (ps : list prog) (acc : list out) : dstate * list out :=
+  match fuel with
+  | O => (st, acc)
+  | S f =>
+    match choose (hd O sched) ps with
+    | None => (st, acc ++ final_outs ps)
+    | Some i =>
+      match nth_error ps i with
+      | Some (Do o k) =>
+        let '(st', r, e) := exec apps st o in
+        let p' := if at_buffer_read (k r) && others_at_buffer i ps then Halt [] else k r in
+        interleaveN apps (tl sched) f st' (replace_nth i p' ps) (acc ++ e)
+      | _ => (st, acc)
+      end
+    end
+  end.
